@@ -5,8 +5,9 @@
      - what the regular expressions of the code see: `^` under re.M and `.` know only "\n" (lines_nl);
      - what CPython's tokenizer sees: a physical line ends at "\n", "\r\n" or a bare "\r" (phys_lines).
    The functions below are the code's line-level behaviour exactly as coded (validated against the
-   running functions on generated texts by harness/props/c19.py on every run), plus the repaired
-   variants (line endings normalised first, as in notes/proposed_fixes/C19-carriage-return.diff).
+   running functions on generated texts by harness/props/c19.py on every run), and how
+   _do_make_formula_body/make_formula_body chain them (line ends normalised first, then _dedent; the
+   un-indent of multi-line strings).
    Definitions only; proofs are in Proofs/Codegen_proofs.v. *)
 From Coq Require Import ZArith List Bool.
 Import ListNotations.
@@ -285,12 +286,38 @@ Definition formula_field (indent name params body : text) : text :=
   [NL] ++ indent ++ s_def ++ name ++ [40] ++ params ++ [41; 58; NL] ++ body ++ [NL].
 
 (* ---------------------------------------------------------------------------------------------
-   Repaired variants: line endings are normalised the way the tokenizer does before anything else
-   looks at the text (notes/proposed_fixes/C19-carriage-return.diff). *)
-Definition indent_fixed (ind t : text) : text := indent_re ind (universal_newlines t).
-Definition comment_fixed (t : text) : text := comment_re (universal_newlines t).
-Definition dedent_fixed (t : text) : text := dedent_re (universal_newlines t).
-Definition stub_fixed := stub_with comment_fixed.
+   codebuilder._do_make_formula_body since /repo commit 2055653: before anything looks at lines, the line
+   ends are normalised the way the tokenizer does (a Replacer with the patches of the regexp for "\r\n" or
+   "\r", replaced by "\n"), then _dedent.  formula_text f is the variable `formula` from there on: the text
+   that is parsed, patched, and handed to _create_syntax_error_code as input_text. *)
+Definition formula_text (f : text) : text := dedent_re (universal_newlines f).
+
+Definition stub_of_formula (printable : Z -> bool) (err_name msg : text) (line col1 : Z) (line_text f : text) : text :=
+  stub_code printable err_name msg line col1 line_text (formula_text f).
+
+(* make_formula_body since /repo commit 66ce871: a multi-line string node of the indented body is un-indented
+   with re.sub('(?<=\n)' + indent + '(?=.*\S)', '', node_text): the indent is removed after every "\n" of the
+   node text where the rest of the line holds a non-space character, i.e. exactly where _indent put it. *)
+Definition unindent_line (ind l : text) : text :=
+  match strip_prefix_opt ind l with
+  | Some r => if has_nonspace r then r else l
+  | None => l
+  end.
+
+Definition unindent_re (ind t : text) : text :=
+  match lines_nl t with
+  | [] => []
+  | l :: ls => join_nl (l :: map (unindent_line ind) ls)
+  end.
+
+(* the code before 66ce871, kept for the regression example: node_text.replace("\n" + indent, "\n") *)
+Definition unindent_old_line (ind l : text) : text :=
+  match strip_prefix_opt ind l with Some r => r | None => l end.
+Definition unindent_old (ind t : text) : text :=
+  match lines_nl t with
+  | [] => []
+  | l :: ls => join_nl (l :: map (unindent_old_line ind) ls)
+  end.
 
 (* ---------------------------------------------------------------------------------------------
    The statements of C19 at line level (theorems in Props/C19.v). *)
